@@ -159,10 +159,13 @@ func planCandidates(p map[string]any) []map[string]any {
 // minimiseAndVerify shrinks the failing run, writes the replay files and
 // confirms that the minimised file reproduces the signature (twice, with equal
 // trace hashes) in fresh processes.
-func minimiseAndVerify(prop, tier, sig string, r Result) (path string, ok bool, note string) {
-	deadline := time.Now().Add(90 * time.Second)
+func minimiseAndVerify(prop, tier, sig string, r Result, shrink bool) (path string, ok bool, note string) {
+	deadline := time.Now().Add(45 * time.Second)
 	if tier == "thorough" {
-		deadline = time.Now().Add(5 * time.Minute)
+		deadline = time.Now().Add(4 * time.Minute)
+	}
+	if !shrink {
+		deadline = time.Now() // only the first classes of a check are minimised; the others are replayed and reported unshrunk
 	}
 	base := &Replay{Property: prop, Scenario: r.scenario, Seed: r.Seed, Index: r.Index, Tier: tier, Signature: sig, Plan: r.Plan, Choices: r.Choices}
 	for _, v := range r.Violations {
